@@ -174,7 +174,7 @@ BROKEN = [
     ("json-broken", "{"), ("json-broken", "[1,"), ("json-broken", '{"a": }'), ("yaml-broken", "a: b: c"), ("yaml-broken", "{a: [}"), ("yaml-broken", "\t- x"), ("yaml-broken", "key: 'unclosed"),
     ("yaml-self-alias", "&x [*x]"), ("yaml-self-alias", "&a {k: *a}"), ("yaml-alias", "[&a 1, *a]"), ("yaml-undefined-alias", "*nope"), ("yaml-tag", "!!python/object:os.system {}"), ("yaml-tag", "!!set {a, b}"), ("yaml-tag", "!!binary aGk="),
     ("yaml-merge", "{<<: {a: 1}, b: 2}"), ("yaml-multi-doc", "a: 1\n---\nb: 2"), ("yaml-directive", "%YAML 1.2\n---\na: 1"), ("deep-nesting", "[" * 60 + "]" * 60), ("deep-nesting-broken", "[" * 200),
-    ("int-lookalike", "0x_"), ("int-lookalike", "-0b_"), ("int-lookalike", "{\"a\": 0x__}"), ("cfg-null-section", "{\"fit\": null}"), ("cfg-null-section", "fit:"), ("cfg-unknown-subcommand", "{\"subcommand\": \"nope\"}"), ("float-lookalike", "._"), ("float-lookalike", ".__e+1"), ("float-lookalike", "{a: ._}"), ("isdigit-not-int", "²"), ("isdigit-not-int", "①"), ("isdigit-not-int", "-³"), ("isdigit-not-int", "٣"), ("class-bad-default", "vf.fixtures.zoo.BadDefault"),
+    ("cfg-key-in-cfg", "{cfg: {a: 1}}"), ("cfg-key-in-cfg", "{\"cfg\": 1}"), ("cfg-key-in-cfg", "{\"cfg\": \"other.yaml\"}"), ("int-lookalike", "0x_"), ("int-lookalike", "-0b_"), ("int-lookalike", "{\"a\": 0x__}"), ("cfg-null-section", "{\"fit\": null}"), ("cfg-null-section", "fit:"), ("cfg-unknown-subcommand", "{\"subcommand\": \"nope\"}"), ("float-lookalike", "._"), ("float-lookalike", ".__e+1"), ("float-lookalike", "{a: ._}"), ("isdigit-not-int", "²"), ("isdigit-not-int", "①"), ("isdigit-not-int", "-³"), ("isdigit-not-int", "٣"), ("class-bad-default", "vf.fixtures.zoo.BadDefault"),
     ("nul", "a\x00b"), ("surrogate", "\udcff"), ("dash", "-"), ("ddash", "--"), ("empty", ""), ("blank", "   "), ("newline", "\n"), ("huge-int", "9" * 400), ("huge-exp", "1e999999"), ("bigint-key", "{1e999: 2}"),
     ("import-missing", "no.such.module.Cls"), ("import-nonclass", "os.path"), ("import-function", "os.getcwd"), ("import-module", "json"), ("import-builtin", "builtins.int"), ("import-dotted-junk", "a..b"), ("import-trailing-dot", "os."),
     ("class-wrong", "vf.fixtures.zoo.Unrelated"), ("class-abstract", "vf.fixtures.zoo.AbstractBase"), ("class-name-only", "SubA"), ("class-name-unknown", "NoSuchCls"),
